@@ -37,4 +37,11 @@ import NbioVerif.Lemmas.SrcBridgeConn
 #print axioms ConnFull.closeNow_eq_flip_teardown
 #print axioms ConnFull.c01_accepted_is_reported
 #print axioms ConnFull.c01_reported_needs_wf
+#print axioms ConnFull.sendfileNoDup_step
+#print axioms ConnFull.reach_sendfileNoDup
+#print axioms ConnFull.sendfileLoop_denyDup_wl
+#print axioms ConnFull.c01_sendfile_nodup
 #print axioms ConnFull.src_maxCache
+#print axioms ConnFull.fileRange_eq
+#print axioms ConnFull.foldPending_eq
+#print axioms ConnFull.pending_length
